@@ -47,6 +47,9 @@ CLAIMED = {
             'io.BytesIO semantics modelled as take/drop; block size varied by subclassing, no repository hook'),
 }
 
+CLAIMED['C20'] = ('Lean 4 theorems about the lexer model (RegexLexer loop + the seven DiffX rules, stock sub-lexers as parameters): for every text the concatenated token values are the input, positions are contiguous, no token is empty; for every document made of benign sections the Tag tokens are exactly the section tags in order and there is no Error token; 20 k fragment soups / random strings / writer-produced files against the real Pygments lexer',
+                  'PARTIAL: the Pygments engine and the stock JsonLexer / DiffLexer are third-party environment (assumed lossless; tested with the real sub-lexers on the same inputs)')
+
 DESIGN_REF = 'DESIGN.md section 5 (%s)'
 
 
